@@ -280,7 +280,7 @@ def cnot(c):
         if c.op == "not":
             return c.a[0]
         if c.op == "cmp":
-            return Cond("cmp", NEG[c.a[0]], c.a[1], c.a[2])
+            return mkcmp(NEG[c.a[0]], c.a[1], c.a[2])
         if c.op == "true":
             return Cond("false")
         if c.op == "false":
@@ -925,7 +925,7 @@ class Evaluator:
             if isinstance(a, Bits) or isinstance(b, Bits):
                 if isinstance(a, Bits) and isinstance(b, Bits):
                     return mkcmp(op, a, b)
-            return Cond("cmp", op, a, b) if not (isinstance(a, Bits) and isinstance(b, Bits)) else mkcmp(op, a, b)
+            return mkcmp(op, a, b)
         if isinstance(a, Bits) and isinstance(b, Bits):
             w = max(a.w, b.w)
             if op in ("Shl", "Shr"):
